@@ -94,6 +94,17 @@ if spec["kind"] == "drop-cb":
     chan.setcallback(lambda x: None)
 for i in range(spec["n"]):
     chan.send(("item", i))
+if spec.get("busy"):
+    # another thread of this process is writing frames of another channel meanwhile
+    other = channel.gateway.newchannel()
+    busy_done = em.Event()
+    def busy():
+        try:
+            for i in range(2):
+                other.send(i)
+        finally:
+            busy_done.set()
+    em.start(busy)
 if spec["kind"] == "body-eof":
     raise EOFError("remote code ran into an EOF of its own")
 if spec["kind"] == "close":
@@ -112,6 +123,8 @@ if spec["kind"] == "close":
         W.observe("closer-exc", side, type(e).__name__, str(e)[:80])
 elif spec["kind"] in ("drop", "drop-cb"):
     del chan
+if spec.get("busy"):
+    busy_done.wait()
 '''
 
 WORKER_OBSERVER = '''
@@ -186,6 +199,9 @@ class CloseScn:
                     chan.setcallback(lambda x: None)
                 for i in range(P["n"]):
                     chan.send(("item", i))
+                if P.get("busy"):
+                    other = gw.newchannel()
+                    S.user(lambda: [other.send(i) for i in range(2)], "busy")
                 if kind == "close":
                     chan.close()
                     try:
@@ -202,6 +218,8 @@ class CloseScn:
                         w.observe("closer-exc", "init", type(e).__name__, str(e)[:80])
                 else:
                     del chan
+                if P.get("busy"):
+                    S.join_users()
                 # wait until the remote observer finished
                 st = None
                 for _ in range(200):
@@ -335,6 +353,11 @@ def histories(tier):
                     if n == 0 and (r, wn) not in ((2, 1), (0, 1)):
                         continue
                     hs.append({"dir": d, "kind": kind, "n": n, "r": r, "w": wn})
+    # the same endings while another thread of the closing process is sending on another channel
+    for d in ("down", "up"):
+        for kind in ("close", "drop", "drop-cb"):
+            for n, r, wn in ((1, 1, 0), (1, 0, 1)) if tier == "quick" else ((0, 0, 1), (1, 1, 0), (1, 0, 1), (2, 1, 1)):
+                hs.append({"dir": d, "kind": kind, "n": n, "r": r, "w": wn, "busy": True})
     return hs
 
 
@@ -351,7 +374,7 @@ def run(tier: str, only=None) -> int:
     else:
         b_sync, b_stmt, cap = {"ps": 3, "free": 2}, {"ps": 1, "pl": 2, "free": 1}, 6000000
     for i, H in enumerate(histories(tier)):
-        name = f"close/{i}:{H['dir']}:{H['kind']}:n{H['n']}r{H['r']}w{H['w']}"
+        name = f"close/{i}:{H['dir']}:{H['kind']}:n{H['n']}r{H['r']}w{H['w']}" + (":busy" if H.get("busy") else "")
         if only and only not in name:
             continue
         P = dict(H, transport="popen", backend="thread")
@@ -361,7 +384,7 @@ def run(tier: str, only=None) -> int:
         harness.run_exploration(rep, PID, name + "/stmt", CloseScn, P, b_stmt, stmt=stmt, max_execs=cap)
     # the same histories on the other transports and worker exec models (default schedule + 1 preemption)
     for i, H in enumerate(histories(tier)):
-        if tier == "quick" and (H["n"], H["r"], H["w"]) != (2, 2, 1):
+        if tier == "quick" and (H["n"], H["r"], H["w"]) != (2, 2, 1) or H.get("busy"):
             continue
         for tr, be in (("socket", "thread"), ("via", "thread"), ("popen", "main_thread_only"), ("popen", "gevent")):
             name = f"close/{i}:{H['dir']}:{H['kind']}:n{H['n']}r{H['r']}w{H['w']}/{tr}:{be}"
